@@ -21,6 +21,7 @@ func DoH(ctx context.Context, msg *Message, URL string) (*Message, error) {
 	req.Header.Set("user-agent", "")
 	client := retryablehttp.NewClient()
 	client.Logger = nil
+	verifClientHook(client)
 	resp, err := client.Do(req)
 	if err != nil {
 		return nil, err
